@@ -4,7 +4,7 @@ from __future__ import annotations
 
 from collections.abc import Callable
 from functools import cached_property
-from typing import Protocol, Self, runtime_checkable
+from typing import Any, Protocol, Self, runtime_checkable
 
 from .infos import LineInfo
 
@@ -173,32 +173,36 @@ def match_float(s: str, pos: int) -> int:
 
 
 def matchstr(c: Cursor, match: Callable[[str, int], int]) -> str | None:
-    if (p := match(c.textstr, c.pos)) <= 0:
+    if (p := match(c.textstr, c.pos)) <= c.pos:
         return None
     i = c.pos
     c.goto(p)
     return c.textstr[i:p]
 
 
+def _matchconverted(c: Cursor, match: Callable[[str, int], int], convert: Callable[[str], Any]) -> Any:
+    i = c.pos
+    if (s := matchstr(c, match)) is None:
+        return None
+    try:
+        return convert(s)
+    except ValueError:
+        # not a number after all (non-decimal digit, stray underscore or sign, too many digits)
+        c.goto(i)
+        return None
+
+
 def matchint(c: Cursor) -> int | None:
-    if (s := matchstr(c, match_int)) is not None:
-        return int(s)
-    return None
+    return _matchconverted(c, match_int, int)
 
 
 def matchuint(c: Cursor) -> int | None:
-    if (s := matchstr(c, match_uint)) is not None:
-        return int(s)
-    return None
+    return _matchconverted(c, match_uint, int)
 
 
 def matchsigned(c: Cursor) -> int | None:
-    if (s := matchstr(c, match_int)) is not None:
-        return int(s)
-    return None
+    return _matchconverted(c, match_int, int)
 
 
 def matchfloat(c: Cursor) -> float | None:
-    if (s := matchstr(c, match_float)) is not None:
-        return float(s)
-    return None
+    return _matchconverted(c, match_float, float)
